@@ -450,6 +450,57 @@ impl W {
                 return Err(("cli-run-status:single-file".into(), format!("`roto run {arg}` exit success = {ok}, expected {expect_run}; output {out:?}\n{err}\n{main_text}")));
             }
             single_form = Some(format!("{fname}:{form}"));
+            // the same script handed over through a pipe (`roto check /dev/stdin`): neither a regular file nor
+            // a directory
+            let piped = |sub: &str| -> Result<(bool, String, String), (String, String)> {
+                use std::io::Write as _;
+                let mut child = Command::new(&self.cli)
+                    .args([sub, "/dev/stdin"])
+                    .stdin(std::process::Stdio::piped())
+                    .stdout(std::process::Stdio::piped())
+                    .stderr(std::process::Stdio::piped())
+                    .spawn()
+                    .map_err(|e| ("io".to_string(), e.to_string()))?;
+                if let Some(mut si) = child.stdin.take() {
+                    let _ = si.write_all(main_text.as_bytes());
+                }
+                let out = child.wait_with_output().map_err(|e| ("io".to_string(), e.to_string()))?;
+                Ok((out.status.success(), String::from_utf8_lossy(&out.stdout).to_string(), String::from_utf8_lossy(&out.stderr).to_string()))
+            };
+            let (ok, _, err) = piped("check")?;
+            evals += 1;
+            if ok != expect_compile {
+                return Err(("cli-check-status:pipe".into(), format!("`roto check /dev/stdin` (script written to a pipe) exit success = {ok}, script compiles = {expect_compile}\n{err}\n{main_text}")));
+            }
+            let (ok, _, err) = piped("test")?;
+            evals += 1;
+            if ok != (expect_compile && all_accept) {
+                return Err(("cli-test-status:pipe".into(), format!("`roto test /dev/stdin` exit success = {ok}; compiles = {expect_compile}, every test accepts = {all_accept}\n{err}\n{main_text}")));
+            }
+            let (ok, out, err) = piped("run")?;
+            evals += 1;
+            if ok != expect_run || (expect_run && out.matches("ran-main-").count() != 1) {
+                return Err(("cli-run-status:pipe".into(), format!("`roto run /dev/stdin` exit success = {ok}, expected {expect_run}; output {out:?}\n{err}\n{main_text}")));
+            }
+        }
+        if expect_compile && c.chance(60) {
+            // a module given twice, as `dup.roto` and as `dup/mod.roto`: a compile error for every sub-command,
+            // reported, not a crash
+            let dd = self.tmp.join("twice");
+            let io = |e: std::io::Error| ("io".to_string(), e.to_string());
+            std::fs::create_dir_all(dd.join("dup")).map_err(io)?;
+            std::fs::write(dd.join("pkg.roto"), "fn main() {\n    print(\"ran-main-twice\");\n}\ntest t_ok {\n    accept\n}\n").map_err(io)?;
+            std::fs::write(dd.join("dup.roto"), "fn one() -> i32 {\n    1\n}\n").map_err(io)?;
+            std::fs::write(dd.join("dup").join("mod.roto"), "fn two() -> i32 {\n    2\n}\n").map_err(io)?;
+            let dds = dd.to_string_lossy().to_string();
+            for sub in ["check", "test", "run"] {
+                let out = Command::new(&self.cli).args([sub, &dds]).output().map_err(io)?;
+                evals += 1;
+                let err = String::from_utf8_lossy(&out.stderr).to_string();
+                if out.status.success() || err.contains("panicked at") {
+                    return Err((format!("cli-{sub}-status:module-given-twice"), format!("`roto {sub}` on a package with dup.roto and dup/mod.roto: exit success = {}, stderr:\n{err}", out.status.success())));
+                }
+            }
         }
         let mut o = Outcome::pass();
         o.evals = evals;
